@@ -3,6 +3,7 @@ import Zc.Proofs.ResponseComplete
 import Zc.Props.C11Wire
 import Zc.Props.C12
 import Zc.Proofs.ResponseExact
+import Zc.GenFacts.FnReply
 /-! # C11 — replies are routed and formatted as RFC 6762 §5.4, §6 and §6.7 require
 
 The decision logic of `_QueryResponse` / `async_response` / `handle_assembled_query` stated outright,
@@ -727,6 +728,39 @@ theorem C11_legacy_end_to_end (w : World) {hO hD : List AddRec} {clock : Int} {h
     · right; exact later true (by simpa using hlast)
 
 end EndToEnd
+
+/-! ## Tie: the source of `_QueryResponse` (`_handlers/query_handler.py`), translated statement by statement on every run
+
+`Zc.GenFn.Reply` is regenerated from the *bodies* of `_QueryResponse.add_qu_question_response`, `add_ucast_question_response`,
+`add_mcast_question_response`, `answers`, `_has_mcast_within_one_quarter_ttl`, `_has_mcast_record_in_last_second` and of
+`QuestionAnswers.__init__` (`tools/gen_fn.py`, spec `tools/fnspecs/reply.py`); the cache look-up `_get_unique_ignoring_scope` is a
+parameter (the model's `SeenMap`).  `GenFacts/FnReply.lean` proves the model's `QR.addQu` / `addUcast` / `addMcast` / `answers` equal to
+those bodies under the invariant `QInv` (`_additionals` is a dict and covers the four sets; established by `__init__`, preserved by the
+three `add_*`).  **What this transports**: the classification the theorems above reason about (`QR.route`, hence `asyncResponse`'s
+fold) is computed by the translated bodies, called in the order `async_response` calls them.  **What it does not**: the loop of
+`QueryHandler.async_response` itself, `_answer_question` (the model's `answerSet`) and the listener are hand-written models; and
+`answers()` iterates four `set`s — CPython in hash order, the translation in insertion order (spec assumption stated in the generated
+docstring): the equation is about the four dicts as the model lists them. -/
+section Tie
+open Zc.Py Zc.GenFn.Reply _root_.Zc.GenFacts.FnReply
+
+/-- **The model's classification is the translated `_QueryResponse`**: for every list of strategies (QU bit, answers), source kind,
+probe flag, clock and cache view, the translated calls never raise (`answers()` finds every record in `_additionals`) and return the
+model's four dicts -/
+theorem C11_response_is_source {seenFn : Nat → Option Rec} {seen : SeenMap} (hs : SeenRel seenFn seen) (ucastSource : Bool)
+    (qs : List Question) (probe : Bool) (now : Int) (its : List (Bool × Dict)) :
+    ∃ s' qa, runGen seenFn (its.flatMap (fun it => routeOps ucastSource it.1 it.2)) (QueryResponse.init () qs probe now) = .ok s'
+      ∧ s'.answers = .ok qa
+      ∧ absA qa = (its.foldl (fun (qr : QR) it => qr.route ucastSource probe seen now qs.length ((qs.head?.map (·.type)).getD 0) it.1 it.2) {}).answers :=
+  response_eq hs ucastSource qs probe now its
+
+/-- the two cache tests of the translated code are the model's (`Gen.Dns.is_recent` on the cached copy; one second) -/
+theorem C11_cache_tests_source (s : QueryResponse) (r : Nat) {seenFn : Nat → Option Rec} {seen : SeenMap} (hs : SeenRel seenFn seen) :
+    s.has_mcast_within_one_quarter_ttl r seenFn = .ok (withinQuarter (seen.get r) s.now)
+    ∧ s.has_mcast_record_in_last_second r seenFn = .ok (inLastSecond (seen.get r) s.now) :=
+  ⟨within_eq s r hs, last_second_eq s r hs⟩
+
+end Tie
 
 /-! non-vacuity -/
 example : hasQuFlag [true, false] = true ∧ hasQuFlag [false, true, false] = true ∧ hasQuFlag [false, false] = false := by decide
